@@ -277,11 +277,36 @@ func (c *Ctx) Guard(sigPrefix string, f func()) (panicked bool) {
 	defer func() {
 		if r := recover(); r != nil {
 			panicked = true
-			c.Violation(sigPrefix+"panic:"+PanicClass(r)+"@"+PlencFrame(debug.Stack()), fmt.Sprint(r))
+			st := debug.Stack()
+			detail := fmt.Sprint(r)
+			if fr := PlencFrame(st); strings.HasPrefix(fr, "?") {
+				// no plenc frame on the stack: show where it happened (harness code or the runtime)
+				detail += "\n" + shortStack(st)
+			}
+			c.Violation(sigPrefix+"panic:"+PanicClass(r)+"@"+PlencFrame(st), detail)
 		}
 	}()
 	f()
 	return false
+}
+
+// shortStack keeps the function lines of the first frames below the panic.
+func shortStack(st []byte) string {
+	var out []string
+	seenPanic := false
+	for _, l := range strings.Split(string(st), "\n") {
+		if strings.HasPrefix(l, "panic(") {
+			seenPanic = true
+			continue
+		}
+		if seenPanic && strings.HasPrefix(l, "\t") {
+			out = append(out, strings.TrimSpace(l))
+			if len(out) == 6 {
+				break
+			}
+		}
+	}
+	return strings.Join(out, " <- ")
 }
 
 var sigKeyRe = regexp.MustCompile(`"sigkey":"([^"]*)"`)
